@@ -56,7 +56,7 @@ type FuncSpec struct {
 	Props      []string
 	VerifyBody bool
 	SafetyKeep []string // with NoSafety: the safety obligation kinds (suffix after "safe.") that are still claimed
-	NoSafety   bool // only the stated clauses are proved; the zero-annotation safety sweep is not claimed
+	NoSafety   bool     // only the stated clauses are proved; the zero-annotation safety sweep is not claimed
 	Decreases  *Clause
 	Rank       int
 	Asserts    []*AssertClause
